@@ -20,6 +20,7 @@ type verifEnv struct {
 	srv   *httptest.Server
 	fault int
 	nDown int
+	chunk bool
 }
 
 func verifNewEnv() *verifEnv {
@@ -30,13 +31,20 @@ func verifNewEnv() *verifEnv {
 	e := &verifEnv{dir: dir, path: filepath.Join(dir, "list_a")}
 	e.srv = httptest.NewServer(http.HandlerFunc(func(w http.ResponseWriter, r *http.Request) {
 		e.nDown++
+		if e.chunk && e.fault != verifFaultTruncated && e.fault != verifFaultStatus404 && e.fault != verifFaultStatus500 {
+			// flushing the header first makes the server stream the body
+			w.WriteHeader(http.StatusOK)
+			w.(http.Flusher).Flush()
+		}
 		switch e.fault {
 		case verifFaultStatus404:
 			http.Error(w, "not found", http.StatusNotFound)
 		case verifFaultStatus500:
 			http.Error(w, "oops", http.StatusInternalServerError)
 		case verifFaultEmptyBody:
-			w.WriteHeader(http.StatusOK)
+			if !e.chunk {
+				w.WriteHeader(http.StatusOK)
+			}
 		case verifFaultOversized:
 			_, _ = w.Write([]byte(verifNew + "||way.too.long.example^\n"))
 		case verifFaultTruncated:
@@ -62,6 +70,8 @@ func (e *verifEnv) putCache(text string, mtime time.Time) {
 		panic(err)
 	}
 }
+
+func (e *verifEnv) setChunked(c bool) { e.chunk = c }
 
 func (e *verifEnv) setFault(f int) {
 	e.fault = f
